@@ -46,9 +46,9 @@ def main():
         audit = lib.build_and_audit(pid, getattr(mod, 'EXTRA_TARGETS', ()))
         try:
             mod.run(ctx)
-        except lib.InfraError:
+        except (lib.InfraError, KeyboardInterrupt, SystemExit):
             raise
-        except Exception as e:
+        except BaseException as e:     # incl. simnet's Idle/Stall/ReadBudget escaping a harness
             ctx.disagree('correspondence harness could not run against this tree', repr(e),
                          None, traceback.format_exc()[-2500:])
         if (audit['failed'] or ctx.disagreements) and not ctx.violations:
@@ -59,9 +59,9 @@ def main():
                 'theorems not checking' if audit['failed'] else 'correspondence disagreement'))
             try:
                 (getattr(mod, 'search', None) or mod.run)(ctx)
-            except lib.InfraError:
+            except (lib.InfraError, KeyboardInterrupt, SystemExit):
                 raise
-            except Exception as e:
+            except BaseException as e:
                 ctx.notes.append('search aborted: %r' % (e,))
         if ctx.thorough and not audit['failed']:
             ok, out = lib.leanchecker(pid)
